@@ -1,5 +1,8 @@
 // World: qlisttbl (C08; container for C11-C15)
 #include "wutil.h"
+#ifndef QSIM_STRUCT
+#define QSIM_STRUCT 1      // 0: this adapter is built without reading any private struct field (API-level oracles only)
+#endif
 #include <algorithm>
 #include <inttypes.h>
 #include <strings.h>
@@ -128,7 +131,7 @@ struct LtWorld : World {
         }
     }
     void sut_abandon() override { t = nullptr; pending = nullptr; }
-    void *sut_mutex() override { return t ? t->qmutex : nullptr; }
+    void *sut_mutex() override { return nullptr; }
     bool sut_user_lock() override { InSutLock s; t->lock(t); return true; }
     void sut_force_unlock() override { InSutLock s; t->unlock(t); }
     void sut_probe(Ctx &) override { InSut s; t->get(t, "probe-key", nullptr, false); }
@@ -150,11 +153,21 @@ struct LtWorld : World {
         }
         return t;
     }
-    Bytes entries_of(qlisttbl_t *tb) {
-        Bytes o; size_t cnt = 0;
-        for (qlisttbl_obj_t *e = tb->first; e; e = e->next) { enc(o, Bytes(e->name)); enc(o, Bytes((const char *)e->data, e->size)); if (++cnt > tb->num + 4) break; }
-        return o;
+    // entries top-to-bottom through the API only (full scan in lookup direction, reversed when the table looks up backwards)
+    std::vector<Ent> scan(qlisttbl_t *tb) {
+        size_t n; { InSut s; n = tb->size(tb); }
+        std::vector<Ent> es;
+        qlisttbl_obj_t o; memset(&o, 0, sizeof o);
+        for (;;) {
+            bool more; { InSut s; more = tb->getnext(tb, &o, nullptr, false); }
+            if (!more) break;
+            es.push_back({Bytes(o.name), Bytes((const char *)o.data, o.size)});
+            if (es.size() > n + 8) break;
+        }
+        if (!(opts & O_FWD)) std::reverse(es.begin(), es.end());
+        return es;
     }
+    Bytes entries_of(qlisttbl_t *tb) { Bytes o; for (auto &e : scan(tb)) { enc(o, e.first); enc(o, e.second); } return o; }
 
     qlisttbl_data_t *pending = nullptr; std::vector<Bytes> pending_expect; int pending_age = 0;
     void check_pending(Ctx &x, bool force) {
@@ -244,7 +257,7 @@ struct LtWorld : World {
             const char *kp = filtered ? (const char *)kb.p : nullptr;
             if (op.k == LT_LOCKEDWALK) { InSutLock s; t->lock(t); }
             qlisttbl_obj_t o; memset(&o, 0, sizeof o);
-            Bytes out; size_t cnt = 0, guard = t->num * 2 + 8; int removed = 0; bool failed = false; int fired_seen = sim_fault_fired(), retries = 0;
+            Bytes out; size_t cnt = 0, guard = t->size(t) * 2 + 8; int removed = 0; bool failed = false; int fired_seen = sim_fault_fired(), retries = 0;
             for (;;) {
                 bool more; { InSut s; more = t->getnext(t, &o, kp, newmem); }
                 if (!more && newmem && sim_fault_fired() > fired_seen && retries < 1) { fired_seen = sim_fault_fired(); retries++; x.st.add("probe.walk_step_retried_after_enomem"); continue; }
@@ -271,7 +284,7 @@ struct LtWorld : World {
             bool encode = op.d & 1;
             // only tables of string values can be saved (the statement's premise); plain text additionally needs printable values
             bool okv = true;
-            if (!mt) for (qlisttbl_obj_t *e = t->first; e; e = e->next) { Bytes v((const char *)e->data, e->size); if (!(encode ? is_cstr(v) : is_plain(v))) okv = false; }
+            if (!mt) { Bookkeeping bk; for (auto &e : scan(t)) if (!(encode ? is_cstr(e.second) : is_plain(e.second))) okv = false; }
             if (!okv) return R_ok("skip");
             std::string path = scratch + "/lt-save.txt";
             // save/load are not among the operations C15 quantifies over: never a fault target
@@ -322,20 +335,15 @@ struct LtWorld : World {
     std::string sut_dump(Ctx &) override {
         // full scan in lookup direction through the API, reported top-to-bottom
         size_t n; { InSut s; n = t->size(t); }
-        std::vector<Ent> es;
-        qlisttbl_obj_t o; memset(&o, 0, sizeof o);
-        for (;;) {
-            bool more; { InSut s; more = t->getnext(t, &o, nullptr, false); }
-            if (!more) break;
-            es.push_back({Bytes(o.name), Bytes((const char *)o.data, o.size)});
-            if (es.size() > n + 8) break;
-        }
-        if (!(opts & O_FWD)) std::reverse(es.begin(), es.end());
+        std::vector<Ent> es = scan(t);
         Bytes out = "n=" + num((long long)n) + ";";
         for (auto &e : es) { enc(out, e.first); enc(out, e.second); }
         return out;
     }
     void sut_struct(Ctx &x) override {
+#if !QSIM_STRUCT
+        (void)x; return;
+#else
         if (!t) return;
         size_t cnt = 0; qlisttbl_obj_t *prev = nullptr;
         for (qlisttbl_obj_t *o = t->first; o; prev = o, o = o->next) {
@@ -345,6 +353,7 @@ struct LtWorld : World {
         if (t->last != prev) x.fail("structure", "struct", "last pointer does not name the final entry");
         if (cnt != t->num) x.fail("structure", "struct", "chain has " + num((long long)cnt) + " entries, size() says " + num((long long)t->num));
         x.st.add("struct.checks");
+#endif
     }
     std::string render(const Op &op) const override {
         char b[220];
